@@ -338,5 +338,22 @@ PROPS["C20"] = dict(
     ],
 )
 
+PROPS["C11"] = dict(
+    title="JSON parsing accepts exactly well-formed documents; serialization round-trips",
+    level="model_checking",
+    trusted_base=COMMON_TB + ["json::value::number() is a stub returning a symbolic double (C11.c); double->integer conversions follow the x86-64 results (cvttsd2si 'integer indefinite'), as the shipped binary does",
+                              "CBMC's bit-precise IEEE-754 model"],
+    assumptions=["strings of length <= 2 for the writer (escapes fit the reserved capacity; checked)"],
+    outside="the parser (tockenizer over std::istream, parse_stream), numbers' text form (locale, precision), object key uniqueness, nesting bound, value variant",
+    obligations=[
+        dict(id="C11.b", harness="C11_tojson.cpp", entry="h_c11b_to_json", ctors=False, cut=[STRING_REALLOC],
+             desc="json::to_json(begin,end): quoted, no raw byte <= 0x1F, no unescaped quote/backslash; an independent decoder of the escapes returns the input",
+             tiers=T(quick=dict(split=[[0, 1, 2]], unwind=20, timeout=900, bounds="every byte string of length 0..2"))),
+        dict(id="C11.c", harness="C11_json.cpp", entry="h_c11c_typed_get", ctors=False,
+             desc="json::traits<T>::get for T in {signed/unsigned char, short, unsigned short, int, unsigned, long long, unsigned long long}: returns exactly the stored double iff it is integral and in range, otherwise throws bad_value_cast",
+             tiers=T(quick=dict(split=[list(range(8))], unwind=30, timeout=900, bounds="every IEEE-754 double (NaN, infinities included) x 8 integer types"))),
+    ],
+)
+
 # properties for which no obligation can be built with this technique (reason required)
 NOT_APPLICABLE = {}
